@@ -4,6 +4,7 @@ package main
 import (
 	"crypto/aes"
 	"crypto/cipher"
+	"crypto/sha256"
 	"encoding/json"
 	"fmt"
 	"sync"
@@ -64,6 +65,53 @@ func clmulRef(a, b ot.Label) (lo, hi ot.Label) {
 	return ot.Label{D0: r[0], D1: r[1]}, ot.Label{D0: r[2], D1: r[3]}
 }
 
+// checkSeed is the harness's own derivation of the seed of the challenge coefficients from a message list: the
+// receiver's seed label, bound to the matrices if the implementation binds it (SHA-256 over all matrix chunks in order,
+// then the seed; first 16 bytes) - which of the two the implementation does is learnt once from an honest run.
+func checkSeed(msgs []memio.Msg, s *session) ot.Label {
+	var seed2 ot.Label
+	seed2.SetBytes(msgs[s.resp].Data)
+	if !seedIsBound {
+		return seed2
+	}
+	h := sha256.New()
+	for _, i := range s.payload {
+		h.Write(msgs[i].Data)
+	}
+	for _, i := range s.check {
+		h.Write(msgs[i].Data)
+	}
+	h.Write(msgs[s.resp].Data)
+	var bound ot.Label
+	bound.SetBytes(h.Sum(nil)[:16])
+	return bound
+}
+
+// seedIsBound: does the implementation derive the coefficients from seed || matrices (true) or from the seed alone
+// (false)? The derivation is public (an attacker knows the code); the harness learns it from the implementation's
+// behaviour: the adaptive alteration of a Delta-selected column is accepted exactly under the right derivation.
+var (
+	seedIsBound  bool
+	bindingKnown bool
+)
+
+func learnBinding() {
+	if bindingKnown {
+		return
+	}
+	bindingKnown = true
+	for _, bound := range []bool{true, false} {
+		seedIsBound = bound
+		for _, dc := range []bool{false, true} {
+			k := cs{N: 9, Choices: "alt", Seed: 424242, DeltaC: dc, F: Fault{Kind: "adaptive", Batch: "payload", Col: 5, Row: 3}}
+			if probeAccepted(k) {
+				return
+			}
+		}
+	}
+	seedIsBound = false
+}
+
 // chiLabel is the harness's own derivation of the i-th challenge coefficient: block i of the AES-CTR key stream
 // (zero IV) keyed by the receiver's check seed.
 func chiLabel(seed ot.Label, i int) ot.Label {
@@ -79,6 +127,49 @@ func chiLabel(seed ot.Label, i int) ot.Label {
 	var l ot.Label
 	l.SetBytes(buf[16*i:])
 	return l
+}
+
+// solveXor finds a subset of vs whose xor is target (Gaussian elimination over GF(2) on 128-bit vectors).
+func solveXor(vs []ot.Label, target ot.Label) ([]int, bool) {
+	type row struct {
+		v    ot.Label
+		comb [4]uint64 // which of the (up to 256) vectors are combined
+	}
+	var piv [128]*row
+	bit := func(l ot.Label, i int) bool { return l.Bit(i) == 1 }
+	reduce := func(r *row) int {
+		for i := 127; i >= 0; i-- {
+			if !bit(r.v, i) {
+				continue
+			}
+			if piv[i] == nil {
+				return i
+			}
+			r.v.Xor(piv[i].v)
+			for w := range r.comb {
+				r.comb[w] ^= piv[i].comb[w]
+			}
+		}
+		return -1
+	}
+	for j, v := range vs {
+		r := &row{v: v}
+		r.comb[j/64] |= 1 << uint(j%64)
+		if p := reduce(r); p >= 0 {
+			piv[p] = r
+		}
+	}
+	t := &row{v: target}
+	if reduce(t) >= 0 {
+		return nil, false
+	}
+	var set []int
+	for j := range vs {
+		if t.comb[j/64]>>uint(j%64)&1 == 1 {
+			set = append(set, j)
+		}
+	}
+	return set, true
 }
 
 func runMul(ctx *runner.Ctx, k cs) {
@@ -186,7 +277,48 @@ func flipBit(data []byte, byteRows, col, row int) bool {
 	return true
 }
 
+// probeAccepted applies the adaptive alteration of k and reports whether the sender finished without error.
+func probeAccepted(k cs) bool {
+	s := getSession(k.N, k.Choices, k.Seed, false)
+	msgs := make([]memio.Msg, len(s.msgs))
+	copy(msgs, s.msgs)
+	d := append([]byte(nil), msgs[s.payload[0]].Data...)
+	msgs[s.payload[0]].Data = d
+	flipBit(d, len(d)/128, k.F.Col, k.F.Row)
+	chi := chiLabel(checkSeed(msgs, s), k.F.Row)
+	var xc ot.Label
+	xc.SetBit(k.F.Col, 1)
+	lo, hi := clmulRef(chi, xc)
+	for i, l := range []ot.Label{lo, hi} {
+		var t ot.Label
+		t.SetBytes(msgs[s.resp+2+i].Data)
+		t.Xor(l)
+		var ld ot.LabelData
+		msgs[s.resp+2+i].Data = append([]byte(nil), t.Bytes(&ld)...)
+	}
+	a, b := memio.NewPair()
+	b.Close()
+	a.Inject(msgs)
+	base := idealot.New()
+	base.InitSender(a)
+	dl := delta(k.Seed, k.DeltaC)
+	err := func() (err error) {
+		defer func() {
+			if r := recover(); r != nil {
+				err = fmt.Errorf("panic: %v", r)
+			}
+		}()
+		snd, err := ot.NewIKNPSender(base, a, drbg.New(k.Seed*2+1), &dl)
+		if err == nil {
+			_, err = snd.Send(k.N, true)
+		}
+		return err
+	}()
+	return err == nil
+}
+
 func runCase(ctx *runner.Ctx, k cs) {
+	learnBinding()
 	if k.Mul != nil {
 		if haveGeneric {
 			runMul(ctx, k)
@@ -243,8 +375,8 @@ func runCase(ctx *runner.Ctx, k cs) {
 		}
 		d := mut(list[f.Chunk])
 		applied = flipBit(d, len(d)/128, f.Col, f.Row)
-		var seed2 ot.Label
-		seed2.SetBytes(s.msgs[s.resp].Data)
+		// the coefficients the sender will use: derived from the check seed and the matrices AS ALTERED (all public)
+		seed2 := checkSeed(msgs, s)
 		chi := chiLabel(seed2, f.Chunk*512+f.Row)
 		var xc ot.Label
 		xc.SetBit(f.Col, 1)
@@ -255,6 +387,31 @@ func runCase(ctx *runner.Ctx, k cs) {
 			t.Xor(l)
 			var ld ot.LabelData
 			copy(msgs[s.resp+2+i].Data, t.Bytes(&ld))
+		}
+	case "kernel":
+		// matrix-only alteration chosen with knowledge of the challenge coefficients (the check seed is the
+		// receiver's and travels before the response, so whoever alters the matrix can know them): payload bit
+		// (col,row) and the same column in a set S of check-batch rows with xor_{s in S} chi[n+s] = chi[row]; the
+		// altered rows cancel in the sender's check whatever Delta is
+		if len(s.payload) != 1 || len(s.check) != 1 || k.N > 1024 {
+			return
+		}
+		// the coefficients as they can be known BEFORE the alteration is chosen (from the unaltered transcript)
+		seed2 := checkSeed(s.msgs, s)
+		target := chiLabel(seed2, f.Row)
+		var basis []ot.Label
+		for j := 0; j < 256; j++ {
+			basis = append(basis, chiLabel(seed2, k.N+j))
+		}
+		set, ok := solveXor(basis, target)
+		if !ok {
+			return
+		}
+		d := mut(s.payload[0])
+		applied = flipBit(d, len(d)/128, f.Col, f.Row)
+		dc := mut(s.check[0])
+		for _, j := range set {
+			applied = flipBit(dc, len(dc)/128, f.Col, j) && applied
 		}
 	case "pair-x":
 		list2 := s.payload
@@ -358,8 +515,8 @@ func runCase(ctx *runner.Ctx, k cs) {
 		}
 		if !s.recv[j].Equal(want) {
 			kind := f.Kind
-			if kind == "adaptive" {
-				kind = fmt.Sprintf("adaptive-selected=%v", selected)
+			if kind == "adaptive" || kind == "kernel" {
+				kind = fmt.Sprintf("%s-selected=%v", kind, selected)
 			}
 			ctx.Violate("silent-accept."+kind+"."+f.Batch, fmt.Sprintf("sender accepted without error but position %d no longer satisfies recv=sent^b*Delta (n=%d, fault %+v, column selected by Delta: %v)", j, k.N, f, selected), k)
 			return
@@ -579,6 +736,23 @@ func work(ctx *runner.Ctx) {
 						if !emit(cs{N: n, Choices: "alt", Seed: seed, DeltaC: dc, F: Fault{Kind: "pair-x", Batch: "payload", Col: c, Row: r, Batch2: "check", Row2: r2}}) {
 							return
 						}
+					}
+				}
+			}
+		}
+	}
+	// the matrix-only alteration chosen from the kernel of the challenge coefficients, every (column, row) of a small
+	// batch (thorough: also n = 130)
+	for _, n := range []int{9, 130} {
+		if ctx.Quick() && n > 9 {
+			continue
+		}
+		rows := (n + 7) / 8 * 8
+		for _, dc := range []bool{false, true} {
+			for c := 0; c < 128; c++ {
+				for r := 0; r < rows && r < n; r++ {
+					if !emit(cs{N: n, Choices: "alt", Seed: seed, DeltaC: dc, F: Fault{Kind: "kernel", Batch: "payload", Col: c, Row: r}}) {
+						return
 					}
 				}
 			}
